@@ -154,6 +154,26 @@ def twin_worlds(gd, rng):
     return {"nodes": nodes, "di": di, "bi": bi, "hostile": "twin-worlds"}
 
 
+def huge_sparse(rng, n=None, density=None):
+    """A sparse ADMG on 64..160 nodes (thresholds on node and edge counts live up there)."""
+    n = n or rng.choice([64, 65, 80, 100, 128, 129, 160])
+    nm = [f"N{i:03d}" for i in range(n)]
+    order = nm[:]
+    rng.shuffle(order)
+    lo, hi = density or (1.0, 3.0)
+    k_di, k_bi = rng.randint(int(lo * n), int(hi * n)), rng.randint(n // 4, n)
+    di, bi = set(), set()
+    while len(di) < k_di:
+        i, j = sorted(rng.sample(range(n), 2))
+        di.add((order[i], order[j]))
+    while len(bi) < k_bi:
+        a, b = rng.sample(nm, 2)
+        if (b, a) not in bi:
+            bi.add((a, b))
+    return {"nodes": nm if rng.random() < 0.5 else order, "di": [list(e) for e in sorted(di)],
+            "bi": [list(e) for e in sorted(bi)], "hostile": "huge-sparse"}
+
+
 def embed_wide(gd, rng, total):
     """``gd`` (the core) embedded in a graph on ``total`` nodes: padding nodes W0.. are interleaved into the core's
     topological order and wired to the core and to each other at random (acyclic).  -> (wide description, padding names)"""
